@@ -156,6 +156,13 @@ def run(tier, work):
         var, exp, got, si, raw = mm
         ops = [K.stmt_short(st["stmt"]) for st in prog]
         key = "unexplained:%s -> %s is %s expected %s" % (" ; ".join(ops[:si + 1]), var, K.show(got), K.show(exp))
+        st = prog[si]["stmt"]
+        if st["op"] == "opasgn" and var == st["v"] and si > 0:
+            before = K.model_type(prog[si - 1]["env"][var])
+            if got == before and exp != before:
+                # `a += 1.5` with a : Integer keeps Integer: the compound assignment does not take the (conditional)
+                # result type of Integer#+
+                key = "Dev_OpAssignKeepsLeftType"
         ap = asis.get(K.prog_key(prog))
         if ap is not None:
             # does the as-is model (deviation on) predict exactly what ti says?
@@ -172,7 +179,8 @@ def run(tier, work):
            "probes_compared": probes, "real_runs": stats["runs"], "batches_failed": stats["batches_failed"],
            "exhaustive": tier == "quick", "notes": v.notes,
            "rule": "every Core.tla behaviour of %d statements over 2 variables (literals, array/hash literals, index, "
-                   "push/<<, ternary, copy, calls of configured methods with each return specification); a dbtp probe "
+                   "push/<<, ternary, copy, multiple assignment, += , calls of configured methods with each return specification incl. "
+                   "conditional returns); a dbtp probe "
                    "of every live variable after every statement" % maxstmts}
     return v.finish("model_checking", cov, assumptions=[
         "ti's printed types are compared as sets of classes (variant order and Union nesting ignored)",
